@@ -6,12 +6,14 @@ LIBS = ["bitset", "scalars", "codec", "cursor", "gen_access", "groups", "arrays"
 
 import re
 
-# quick tier: C10 and C04 are unions of what other properties already run in full; keep a representative subset so that
+# quick tier (must stay well below 15 minutes on a cold, slower machine): C10, C04, C03 are unions of what other properties already run in full; keep a representative subset so that
 # the per-change check stays within minutes (the thorough tier runs everything)
 QUICK_SKIP = {
     "C10": [r"^codec-.*<(char|int8|int16|uint16|int32|int64|float),", r"^codec-.*\[unchecked\]", r"^cursor/.*<(uint8,le|uint64,le|double,be)>", r"cursor traversal \((dm|init)\)", r"^groups/.*<b32_n8>",
             r"\[content\]", r"^arrays/static_array_ref::.*<N=(2|3)>", r"^gen-prim_be"],
-    "C04": [r"^cursor/.*<(uint8,le|uint64,le)>", r"^groups/.*<b32_n8>"],
+    "C04": [r"^cursor/.*<(uint8,le|uint64,le)>", r"^groups/.*<b32_n8>", r"^gen-prim_be", r"visit_children"],
+    "C03": [r"^gen-prim_be", r"cursor traversal \((dm|idm)\)", r"^cursor/.*<(uint8,le|uint64,le)>", r"^groups/.*<b32_n8>"],
+    "C02": [r"^gen-prim_be.*get_by_tag"],
     "C11": [r"^codec-.*<(char|int8|int16|uint16|int32|int64|float),", r"^cursor/.*<(uint8,le|uint64,le|double,be)>", r"^groups/.*<b32_n8>"],
 }
 
